@@ -42,9 +42,11 @@ ProbeHow(e, dev) ==
   CASE e.what = "value" ->
          IF RuleAccepts(e.rules, e.pos) = e.schemaAccepts THEN "ok"
          ELSE IF "D_rules_numeric_on_string_int64" \in dev /\ e.kind \in Int64Kinds /\ e.int64AsString THEN "D_rules_numeric_on_string_int64"
-         ELSE IF "D_rules_unsigned_kinds" \in dev /\ e.kind \in UnsignedKinds \cup {"sint32", "sint64", "sfixed32", "sfixed64", "fixed32", "fixed64"} THEN "D_rules_unsigned_kinds"
+         ELSE IF "D_rules_other_int_kinds" \in dev /\ e.kind \in {"uint32", "uint64", "sint32", "sint64", "fixed32", "fixed64", "sfixed32", "sfixed64"}
+              THEN "D_rules_other_int_kinds"
+         ELSE IF "D_rules_exclusive_bounds" \in dev /\ (e.rules.gt # "" \/ e.rules.lt # "") THEN "D_rules_exclusive_bounds"
          ELSE IF "D_rules_float_precision" \in dev /\ e.bigBound THEN "D_rules_float_precision"
-         ELSE IF "D_rules_yaml_scalars" \in dev /\ e.format = "yaml" THEN "D_rules_yaml_scalars"
+         ELSE IF "D_rules_yaml_scalars" \in dev /\ e.numericLooking THEN "D_rules_yaml_scalars"
          ELSE "constraint_mismatch"
     [] e.what = "required" -> IF e.required = e.listed THEN "ok" ELSE "required_mismatch"
     [] e.what = "format" -> IF FormatName(e.format) # "" /\ e.published = FormatName(e.format) THEN "ok"
